@@ -148,16 +148,14 @@ theorem act13_4_shape (gen : Nat → Str) (s : Nat × Option JO) (a t : JO) (ht 
     ∃ t', get "templating".toList (act13_4 gen s a).2 = some (.obj t') ∧
       get "uuid".toList t' = none ∧ get "variables".toList t' = none ∧
       get "components".toList t' = some (.arr (.cons (.obj (.cons "uuid".toList (.str (gen s.1))
-        (.cons "name".toList (.str "body".toList) (.cons "params".toList (.arr (match get "variables".toList t with
-          | some (.arr l) => l
-          | _ => .nil)) .nil)))) .nil)) := by
+        (.cons "name".toList (.str "body".toList) (.cons "params".toList (.arr (varsOf t)) .nil)))) .nil)) := by
   unfold act13_4
   rw [if_pos ht, h]
   simp only []
   refine ⟨_, get_set_eq _ _ _, ?_, ?_, ?_⟩
   · rw [get_del_ne _ _ (by decide), get_del_eq]
   · rw [get_del_eq]
-  · rw [get_del_ne _ _ (by decide), get_del_ne _ _ (by decide), get_set_eq]; rfl
+  · rw [get_del_ne _ _ (by decide), get_del_ne _ _ (by decide), get_set_eq]
 
 theorem strs_strArr : (l : List Str) → strs (strArr l) = l
   | [] => rfl
